@@ -168,9 +168,12 @@ def _run_job(job: T.Dict[str, T.Any]) -> T.Dict[str, T.Any]:
     return _tag(job, bv.run_case(job))
 
 
-def pick_family(fam: T.Dict[str, T.Any], rnd: random.Random, n: int, exhaustive: bool) -> T.List[T.Dict[str, T.Any]]:
+def pick_family(fam: T.Dict[str, T.Any], rnd: random.Random, n: int, exhaustive: bool,
+                exhaustive_f5: bool = True) -> T.List[T.Dict[str, T.Any]]:
     """Seeded sample of the exported family: half of it projects the rule book says must be rejected."""
     f3 = [dict(p, family='F3') for p in fam['f3']] + [dict(p, family='F4') for p in fam['f4']]
+    # F5 (unity chunk boundaries): all of it in the thorough tier, the mirror-layout half in the quick tier
+    f3 += [dict(p, family='F5') for p in fam['f5'] if exhaustive_f5 or p['layout'] == 'mirror']
     allp = [dict(p, family='F1') for p in fam['f1']] + [dict(p, family='F2') for p in fam['f2']]
     if exhaustive or n >= len(allp):
         return allp + f3
@@ -246,17 +249,18 @@ def main(chk: Check) -> None:
         bfut = [ex.submit(_run_job, j) for j in bjobs]
         fam, graphs = model_check(chk, quick)
         stages['model_check'] = round(time.time() - t0, 1)
-        chk.extra['family_sizes'] = {'F1': len(fam['f1']), 'F2': len(fam['f2']), 'F3': len(fam['f3']), 'F4': len(fam['f4']),
+        chk.extra['family_sizes'] = {'F1': len(fam['f1']), 'F2': len(fam['f2']), 'F3': len(fam['f3']), 'F4': len(fam['f4']), 'F5': len(fam['f5']),
                                      'writer_graphs': len(graphs)}
         if n_writer < len(graphs):
             graphs = rnd.sample(graphs, n_writer)
         jobs: T.List[T.Dict[str, T.Any]] = []
-        for k, p in enumerate(pick_family(fam, rnd, n_family, False)):
+        for k, p in enumerate(pick_family(fam, rnd, n_family, False, not quick)):
             x = p.pop('x')
             family = p.pop('family')
             projgen.normalize(p)
-            # unity is not part of the model (the expectations do not depend on it): vary it on the real run
-            p['unity'] = rnd.choice(['off', 'off', 'on'])
+            # the expectations of F1-F4 do not depend on unity: vary it on the real run (F5 fixes it itself)
+            if family != 'F5':
+                p['unity'] = rnd.choice(['off', 'off', 'on'])
             jobs.append({'id': f'A{k}', 'kind': 'proj', 'p': p, 'family': family, 'expect': x})
         wjobs = [(lo, graphs[lo:lo + 1500]) for lo in range(0, len(graphs), 1500)]
         wfut = [ex.submit(_writer_worker, j) for j in wjobs]
